@@ -370,12 +370,15 @@ class SWorld(object):
         self.nan_point = nan_point
 
         mixed = self.mixed = bool(variant.get("mixed_types"))
+        nd_result = bool(variant.get("nd_result"))
 
         def fn(a, b, k=3):
             if mixed and (isinstance(a, (bool, float, np.floating, str)) or not isinstance(b, (float, np.floating))):
                 return -1.0, -1.0      # a is drawn from ints, b from floats: each must arrive with its own type
             if nan_point and (a, b) == (2, 2):
                 return float("nan"), float("nan")        # a legitimate result: every output is NaN at this point
+            if nd_result:
+                return np.array([float(VER[0] * 1000 + 10 * a + b), float(a - b)])     # the outputs as one ndarray
             return float(VER[0] * 1000 + 10 * a + b), float(a - b)
 
         self.fn = fn
@@ -399,9 +402,20 @@ class SWorld(object):
             return None
         out = []
         for _, r in df.iterrows():
-            x = float(r["x"])
-            a, b = float(r["a"]), int(r["b"])
-            a = int(a) if a == int(a) else a
+            try:
+                x = float(r["x"])
+                a, b = float(r["a"]), int(r["b"])
+                a = int(a) if a == int(a) else a
+                float(r["d"]), int(r["k"])
+            except Exception:  # noqa
+                # a row that does not even have the table's shape (a missing column, an array in a cell, text ...)
+                def _short(v):
+                    try:
+                        return int(v)
+                    except Exception:  # noqa
+                        return str(v)[:20]
+                out.append([_short(r.get("a")), _short(r.get("b")), -1])
+                continue
             if math.isnan(x):
                 ok = self.nan_point and (a, b) == (2, 2) and math.isnan(float(r["d"])) and int(r["k"]) == 3
                 out.append([a, b, -2 if ok else -1])      # -2: the all-NaN result of the point (2, 2)
